@@ -86,49 +86,77 @@ def newline_in_format_spec(text: str | None, case: Any) -> bool:
     return bool(text) and bool(re.search(r"\{[^{}]*:[^{}'\"]*\r?\n", text))
 
 
-_C18_FAMILIES = None
 _SIG = None  # set by kf.match(): the signature being matched
 
 
-def c18_family_listed(text: str | None, case: Any) -> bool:
-    """The family is one of those listed (with this kind of super-linearity) in known_c18_families.json."""
-    global _C18_FAMILIES
-    import json
-    import os
-
-    if _C18_FAMILIES is None:
-        with open(os.path.join(os.path.dirname(os.path.dirname(os.path.dirname(os.path.abspath(__file__)))), "known_c18_families.json")) as f:
-            _C18_FAMILIES = json.load(f)
-    kinds = _C18_FAMILIES.get(case.get("family") if isinstance(case, dict) else None)
-    if not kinds:
-        return False
-    word = (_SIG or "").split(" ")[1] if _SIG else ""
-    return word in kinds
-
-
-def debug_text_differs_only_by_comment(text: str | None, case: Any) -> bool:
-    """KF-C10-04: the trees become equal once, in text Constants of a JoinedStr, everything from a '#' to the end of its
-    line is removed from some suffix of the text (the suffix being the text of an '=' debug field, which is merged with
-    the literal part before it). CPython 3.12.1 does that to debug texts, even when the '#' sits inside a string literal."""
+def _debug_accidents(text: str | None) -> set[str] | None:
+    """Which of CPython 3.12.1's two accidents with the text of '=' debug fields explain ALL differences between the two
+    trees: 'comment' (everything from a '#' to the end of the line is removed, inside string literals too) and 'escape'
+    (backslash escapes are decoded).  None if something else differs.  Each differing text Constant must become equal
+    by applying the accidents to some suffix of it (the debug text is merged with the literal part before it), and the
+    trees must then be identical, positions included."""
     import ast
     import re
+    import warnings
 
     from ..oracle import run
 
-    if not text or "#" not in text or "=" not in text:
-        return False
+    if not text or "=" not in text:
+        return None
     so, ours = run.ours(text, "exec")
     sc, ref = run.cpy(text, "exec")
     if so != run.TREE or sc != run.TREE:
-        return False
-    changed = False
+        return None
+    esc = re.compile(r"\\(?:N\{[^{}]*\}|[0-7]{1,3}|x[0-9a-fA-F]{2}|u[0-9a-fA-F]{4}|U[0-9a-fA-F]{8}|.)", re.S)
+
+    def dec(m: "re.Match[str]") -> str:
+        t = m.group()
+        q = "'''" if '"' in t else '"""'
+        try:
+            with warnings.catch_warnings():
+                warnings.simplefilter("ignore")
+                return str(ast.literal_eval(q + t + q))
+        except (SyntaxError, ValueError):
+            return t
+
+    def strip(v: str) -> str:
+        return re.sub(r"#[^\n]*", "", v)
+
+    used: set[str] = set()
     for a, b in zip(ast.walk(ours), ast.walk(ref)):
         if type(a) is not type(b):
-            return False
+            return None
         if isinstance(a, ast.Constant) and isinstance(a.value, str) and isinstance(b.value, str) and a.value != b.value:
             v = a.value
-            if not any(v[:i] + re.sub(r"#[^\n]*", "", v[i:]) == b.value for i in range(len(v)) if v[i] == "#" or i == 0):
-                return False
+            how = None
+            for i in range(len(v)):
+                if i and v[i] not in "#\\":
+                    continue
+                head, tail = v[:i], v[i:]
+                if head + strip(tail) == b.value:
+                    how = {"comment"}
+                elif head + esc.sub(dec, tail) == b.value:
+                    how = {"escape"}
+                elif head + esc.sub(dec, strip(tail)) == b.value:
+                    how = {"comment", "escape"}
+                if how:
+                    break
+            if not how:
+                return None
+            used |= how
             a.value = b.value
-            changed = True
-    return changed and ast.dump(ours, include_attributes=True) == ast.dump(ref, include_attributes=True)
+    if not used or ast.dump(ours, include_attributes=True) != ast.dump(ref, include_attributes=True):
+        return None
+    return used
+
+
+def debug_text_differs_only_by_comment(text: str | None, case: Any) -> bool:
+    """KF-C10-04 (see _debug_accidents): the differences are explained by the two accidents and the comment one is among them."""
+    used = _debug_accidents(text) if text and "#" in text else None
+    return bool(used) and "comment" in used
+
+
+def debug_text_differs_only_by_escape_decoding(text: str | None, case: Any) -> bool:
+    """KF-C10-05 (see _debug_accidents): the differences are explained by escape decoding alone."""
+    used = _debug_accidents(text) if text and "\\" in text else None
+    return used == {"escape"}
